@@ -77,6 +77,18 @@ class Stage:
                 out.setdefault(path[len(GROUP_DIR) + 1:], []).append((sha, size))
         return out
 
+    def settled_requests(self, seq0, wait=5.0):
+        """The log is written when a request handler finishes, which for aborted connections can be after the
+        client has already returned: wait until every sequence number handed out has its log line."""
+        import time
+        reqs = []
+        t0 = time.time()
+        while True:
+            reqs += self.emu.new_requests()
+            if len(reqs) >= self.emu.seq() - seq0 or time.time() - t0 > wait:
+                return reqs
+            time.sleep(0.02)
+
     def stop(self):
         self.emu.stop()
 
@@ -103,7 +115,7 @@ def run_upfile(ctx, stage, provider, sizes, seed, ending, max_request_size, faul
     if max_request_size:
         arg['max_request_size'] = max_request_size
     out = core.run_lines(core.harness_exe(ctx), [core.req('upfile', arg)], timeout=timeout)[0]
-    reqs = stage.emu.new_requests()
+    reqs = stage.settled_requests(seq0)
     stage.emu.set_script([])
     return {'out': out, 'requests': reqs, 'classes': conversation(reqs, provider), 'files': stage.group_files(provider)}
 
@@ -150,3 +162,120 @@ def files_agree(real, exp):
             elif (rs, rz) != (es, ez):
                 return False
     return True
+
+
+# ---------------------------------------------------------------------------------------------
+# end to end: the hooked `vsb upload` binary, real gpg, emulator
+
+PROVIDER_CFG = {'dropbox': 'dropbox', 'yandex': 'yandex-disk', 'google': 'google-drive'}
+
+
+def make_gnupghome(base):
+    """A warmed private GNUPGHOME (gpg prints 'keybox created' on first use, which vsb treats as an error)."""
+    home = os.path.join(base, 'gnupg')
+    os.makedirs(home, mode=0o700, exist_ok=True)
+    os.chmod(home, 0o700)
+    with open(os.path.join(home, 'gpg.conf'), 'w') as f:
+        f.write('no-random-seed-file\n')
+    env = dict(os.environ, GNUPGHOME=home)
+    subprocess.run(['gpg', '--batch', '--list-keys'], env=env, stdout=subprocess.DEVNULL, stderr=subprocess.DEVNULL)
+    subprocess.run(['gpg', '--batch', '--symmetric', '--passphrase', 'warm', '--pinentry-mode', 'loopback', '-o', os.path.join(home, 'warm.gpg')],
+                   input=b'warm', env=env, stdout=subprocess.DEVNULL, stderr=subprocess.DEVNULL)
+    return home
+
+
+def kill_agent(home):
+    subprocess.run(['gpgconf', '--kill', 'gpg-agent'], env=dict(os.environ, GNUPGHOME=home), stdout=subprocess.DEVNULL, stderr=subprocess.DEVNULL)
+
+
+def gpg_children():
+    """pids of running `gpg` processes (not gpg-agent)."""
+    out = []
+    for pid in os.listdir('/proc'):
+        if pid.isdigit():
+            try:
+                exe = os.readlink('/proc/%s/exe' % pid)
+            except OSError:
+                continue
+            if os.path.basename(exe) == 'gpg':
+                out.append(int(pid))
+    return out
+
+
+def gpg_decrypt(home, blob, passphrase):
+    """-> (rc, plaintext, stderr)"""
+    import tempfile
+    with tempfile.NamedTemporaryFile(dir=home, suffix='.gpg', delete=False) as f:
+        f.write(blob)
+        path = f.name
+    try:
+        r = subprocess.run(['gpg', '--batch', '--pinentry-mode', 'loopback', '--passphrase-fd', '0', '--decrypt', path],
+                           input=passphrase.encode() + b'\n', env=dict(os.environ, GNUPGHOME=home), stdout=subprocess.PIPE, stderr=subprocess.PIPE)
+        return r.returncode, r.stdout, r.stderr.decode('utf-8', 'replace')
+    finally:
+        os.unlink(path)
+
+
+class E2E:
+    """A local storage with real backups, a warmed GNUPGHOME, an emulator with the cloud root in place, and a
+    configuration with an upload section: everything `vsb upload` needs, offline."""
+    CLOUD_ROOT = '/Backups'
+
+    def __init__(self, ctx, hid, provider, passphrase, nbackups=2, file_sizes=(10, 5000, 70000), rng=None):
+        import random
+        from vlib import hist, store
+        self.ctx, self.provider, self.passphrase = ctx, provider, passphrase
+        self.rng = rng or random.Random(hid)
+        self.w = w = hist.World(ctx, hid, self.rng, max_groups=2, max_per_group=max(3, nbackups))
+        w.now = hist.T0
+        for k, sz in enumerate(file_sizes):
+            w.write(os.path.join(w.items[0], 'f%d' % k), 40 + k, sz)
+        self.backups = []
+        for b in range(nbackups):
+            w.write(os.path.join(w.items[0], 'new%d' % b), 60 + b + hid * 10, 1000 + b)
+            r = w.backup(advance=7)
+            assert r.rc == 0, r.errors()
+            self.backups.append((store.group_name(w.now), store.backup_name(w.now)))
+        self.home = make_gnupghome(w.base)
+        self.stage = Stage(ctx, 'e2e-%d' % hid)
+        ns = emu.pe.load_namespace(self.stage.dir, provider)
+        ns.mkdir(self.CLOUD_ROOT)
+        emu.pe.save_namespace(self.stage.dir, ns)
+        self.stage.emu.reload()
+        self.cfg = os.path.join(w.base, 'upload.yaml')
+        store.write_config(self.cfg, 'b', w.root, [{'path': w.items[0]}], 2, max(3, nbackups),
+                           upload={'provider': {'name': PROVIDER_CFG[provider], 'client_id': 'id', 'client_secret': 'secret', 'refresh_token': 'refresh'},
+                                   'path': self.CLOUD_ROOT, 'max_backup_groups': 2, 'encryption_passphrase': passphrase})
+
+    def cloud(self):
+        """{relative path below the cloud root: [(sha256, size)]} for files"""
+        out = {}
+        for path, typ, sha, size in self.stage.emu.files(self.provider, self.CLOUD_ROOT):
+            if typ == 'file':
+                out.setdefault(path[len(self.CLOUD_ROOT) + 1:], []).append((sha, size))
+        return out
+
+    def cloud_blob(self, rel):
+        ns = self.stage.emu.namespace(self.provider)
+        return ns.read_file(self.CLOUD_ROOT + '/' + rel)
+
+    def upload(self, rules=None, env=None, shim_env=None, timeout=240, max_request_size=None, args=()):
+        from vlib import store
+        self.stage.emu.new_requests()
+        self.stage.emu.set_script(rules or [])
+        extra = {'GNUPGHOME': self.home, 'VSB_VERIF_URL_MAP': self.stage.emu.url_map}
+        if max_request_size:
+            extra['VSB_VERIF_MAX_REQUEST_SIZE'] = str(max_request_size)
+        extra.update(env or {})
+        before = set(gpg_children())
+        seq0 = self.stage.emu.seq()
+        r = store.run_vsb(self.ctx, ['-c', self.cfg, 'upload'] + list(args), now=self.w.now + 60, shim_env=shim_env, extra_env=extra, timeout=timeout)
+        left = [p for p in gpg_children() if p not in before]
+        reqs = self.stage.settled_requests(seq0)
+        self.stage.emu.set_script([])
+        return {'run': r, 'requests': [q for q in reqs if q.get('provider') == self.provider], 'gpg_left': left, 'cloud': self.cloud()}
+
+    def close(self):
+        self.stage.stop()
+        kill_agent(self.home)
+        self.w.cleanup()
